@@ -597,3 +597,100 @@ func TestC06_R_MultiMiBFilesWithTrailingEmptyChunks(t *testing.T) {
 		}
 	}
 }
+
+// A shard block written by a careless writer: two of its child-shard links carry the same slot label (the reader finds
+// children by position, the label only tells values from shards). Both children are shard blocks of the directory being
+// interpreted: preload and the entity walk fetch both, and report an error if either cannot be loaded.
+func TestC06_R_ShardWithRepeatedSlotLabel(t *testing.T) {
+	for _, fanout := range []int{8, 256} {
+		st := NewStore()
+		var es []entrySpec
+		for i := 0; i < 40*fanout/8; i++ {
+			es = append(es, entryFor(fmt.Sprintf("entry-%04d", i), 0))
+		}
+		orig, _, err := buildSharded(st, es, fanout)
+		if err != nil {
+			t.Fatal(err)
+		}
+		bi, err := st.Decode(orig)
+		if err != nil {
+			t.Fatal(err)
+		}
+		pad := padWidth(fanout)
+		var kids []int
+		for i, l := range bi.Links {
+			if l.Name != nil && len(*l.Name) == pad {
+				kids = append(kids, i)
+			}
+		}
+		if len(kids) < 2 {
+			t.Fatalf("harness: root shard has %d child shards", len(kids))
+		}
+		links := append([]LinkInfo{}, bi.Links...)
+		links[kids[1]].Name = strp(*links[kids[0]].Name)
+		raw := encodePBRaw(links, bi.Data, true)
+		root, err := pbProto.Prefix.Sum(raw)
+		if err != nil {
+			t.Fatal(err)
+		}
+		st.Put(root, raw)
+		var shardBlocks []cid.Cid
+		var walk func(c cid.Cid)
+		walk = func(c cid.Cid) {
+			shardBlocks = append(shardBlocks, c)
+			b, err := st.Decode(c)
+			if err != nil {
+				t.Fatal(err)
+			}
+			for _, l := range b.Links {
+				if l.Name != nil && len(*l.Name) == pad {
+					walk(l.Cid)
+				}
+			}
+		}
+		walk(root)
+		for _, access := range []string{"unixfs-preload", "preload-selector", "entity-selector"} {
+			run := func() error {
+				ls := st.LinkSystem()
+				pn, err := loadPlain(ls, root)
+				if err != nil {
+					return err
+				}
+				st.ResetLogs()
+				if access == "unixfs-preload" {
+					_, err = ls.KnownReifiers["unixfs-preload"](lcS, pn, ls)
+					return err
+				}
+				target := unixfsnode.MatchUnixFSPreloadSelector
+				if access == "entity-selector" {
+					target = unixfsnode.MatchUnixFSEntitySelector
+				}
+				sel, err := selector.CompileSelector(unixfsnode.UnixFSPathSelectorBuilder("", target, false))
+				if err != nil {
+					return err
+				}
+				prog := traversal.Progress{Cfg: &traversal.Config{Ctx: sessionCtx, LinkSystem: *ls, LinkTargetNodePrototypeChooser: protoChooser}}
+				return prog.WalkMatching(pn, sel, func(p traversal.Progress, n datamodel.Node) error { return nil })
+			}
+			var err error
+			must(t, access, func() { err = run() })
+			if err != nil {
+				t.Fatalf("C06: fanout %d, root shard with a repeated slot label, %s on a complete store: %v", fanout, access, err)
+			}
+			got := cidSet(st.ReadLog())
+			for i, c := range shardBlocks[1:] {
+				if !got[c] {
+					t.Fatalf("C06: fanout %d, root shard with a repeated slot label, %s: shard block #%d of %d (%s) was never requested (requested %d blocks)", fanout, access, i+2, len(shardBlocks), c, len(got))
+				}
+			}
+			for i, c := range shardBlocks[1:] {
+				st.Missing = map[cid.Cid]bool{c: true}
+				must(t, access, func() { err = run() })
+				st.Missing = map[cid.Cid]bool{}
+				if err == nil {
+					t.Fatalf("C06: fanout %d, root shard with a repeated slot label, %s with shard block #%d of %d unavailable reported no error", fanout, access, i+2, len(shardBlocks))
+				}
+			}
+		}
+	}
+}
